@@ -589,6 +589,20 @@ String File::getRelativePath(const String& from, const String& to)
     simFrom.append('/');
   if(String::compare((const char*)simTo, (const char*)simFrom, simFrom.length()) == 0)
     return String((const char*)simTo + simFrom.length(), simTo.length() - simFrom.length());
+  {
+    String simToDir = simTo;
+    if(!simToDir.isEmpty() && simToDir != "/")
+      simToDir.append('/');
+    if(String::compare((const char*)simFrom, (const char*)simToDir, simToDir.length()) == 0)
+    { // `to` is a directory above `from`: one "../" for every component below it (going through the loop
+      // below would step over `to` and come back by its last name, which is wrong when that name is "..")
+      String result;
+      for(const char* p = (const char*)simFrom + simToDir.length(); *p; ++p)
+        if(*p == '/')
+          result.append("../");
+      return result;
+    }
+  }
   String result("../");
   while(simFrom.length() > 0)
   {
